@@ -260,4 +260,38 @@ def jobs(tier):
                    spec_headers=SPEC, exceptions=True, caps={'vec_us': 6, 'umap_str_lit': 4, 'vec_vec_constrp': 12, 'vec_constrp': 7, 'vec_U': 6, 'vec_lit': 2},
                    abstract_fields={'smt::sat_core': ['assigns', 'exprs', 'watches', 'level', 'reason'], 'smt::constr': []}, harness_pre=HPRE, timeout=1200, force_types=['std::vector<smt::lit>'],
                    bounded='<= 5 pre-existing variables'))
+
+    # ---- new_at_most_one, product encoding (>= 4 literals), on a CONCRETE argument structure with a symbolic assignment:
+    # the harness owns the network (6 variables, all undecided, empty cache) and passes 5 distinct literals of fixed signs, so
+    # the grid (3 x 2, not square) is built concretely, the recursion on the row/column selectors and new_conj run inline, and
+    # only xt_sigma (and the logged clauses' content) is symbolic.  Obligation: the literal, when true, forces at-most-one.
+    NP = 5
+    dP = dict(defines(nv0, maxv=NP + 1 + 9, maxcl=24, maxlits=NP, exprs_cap=16, str_cap=12), XT_NP=NP)
+    HARN = '''void xt_harness(void)
+{
+  xt_init_globals();
+  { unsigned int sg; xt_sigma = sg; }
+  struct smt_sat_core s;
+  s.assigns.n = XT_NP + 1; s.assigns.e[0] = 0;
+  for (int i = 1; i <= XT_NP; i++) s.assigns.e[i] = 2;
+  s.trail_lim.n = 0; s.exprs.n = 0;
+  struct vec_lit ls; ls.n = XT_NP;
+  for (int i = 0; i < XT_NP; i++) ls.e[i].x = (U_t)(((i + 1) << 1) + ((i % 3) != 1 ? 1 : 0));   /* b1, !b2, b3, b4, !b5 */
+  xt_ncl = 0; __exc = 0;
+  struct vec_us A0 = s.assigns;
+  struct smt_lit ret = smt_sat_core_new_at_most_one__vec_lit(&s, ls);
+  __CPROVER_assert(__exc == 0, "noexcept");
+  __CPROVER_assert(s.assigns.n > XT_NP + 2, "product_encoding_used");
+  __CPROVER_assert(!(sg_ext(xt_sigma, s.assigns) && sg_sat_log(xt_sigma, 0, xt_ncl) && sg_lit(xt_sigma, ret)) || (sg_count(xt_sigma, ls) <= 1), "forces_constraint");
+  __CPROVER_assert(sp_assigns_grown(A0, s.assigns), "root_assignment_unchanged");
+  __CPROVER_assert(xt_canary, "xt canary");
+}
+'''
+    CAPSP = {'vec_lit': NP, 'vec_us': dP['XT_MAXV'], 'vec_U': 2, 'umap_str_lit': dP['XT_EXPRS_CAP']}
+    if tier == 'thorough':
+      out.append(Job('sat.new_at_most_one_product', AMO_T, tus=TUS, contract=None, enforce=False, defines=dP, unwind=NP + 2, model_unwind=26, spec_headers=SPEC,
+                   callee_contracts={NEW_VAR: C_NEW_VAR, NEW_CLAUSE: C_NEW_CLAUSE}, replace=[NEW_VAR, NEW_CLAUSE], exceptions=True, caps=CAPSP,
+                   abstract_fields=ABS, harness=HARN, timeout=3000, mem_gb=32, solver=SOLVER,
+                   extra_flags=['--depth', '100000'],
+                   bounded='5 distinct undecided literals of fixed signs (3 x 2 product grid), symbolic assignment; only "true forces the constraint" is proved for this encoding'))
     return out
